@@ -11,8 +11,11 @@ from pathlib import Path
 
 VERIF = Path(__file__).resolve().parent.parent
 REPO = os.environ.get("VERIF_REPO", "/repo")
-LEAN = VERIF / "lean"
+LEAN = Path(os.environ.get("VERIF_LEAN", VERIF / "lean"))    # scratch copy of the lake project (seed testing)
+OUT = Path(os.environ.get("VERIF_OUT", VERIF))               # where evidence/ and replays/ are written
 PY = "/venv/bin/python"
+# everything `lean --run N2k/Driver/Main.lean` imports (the driver is interpreted; its imports must be compiled)
+DRIVER_TARGETS = ["N2k.Driver.Core", "N2k.Driver.Pgn", "N2k.Driver.Dec", "N2k.Driver.ClientDrv", "N2k.Driver.JsonDrv"]
 ALLOWED_AXIOMS = {"propext", "Classical.choice", "Quot.sound"}
 FORBIDDEN = re.compile(r"\b(sorry|admit|native_decide|bv_decide|implemented_by)\b|^\s*axiom\s|\bunsafe\s|maxHeartbeats\s+0\b")
 
